@@ -620,16 +620,17 @@ def args_diff_sig(a_args, b_args):
 
 
 def _shape(e, depth=0):
+    # sizes are left out on purpose: the printer/parser grammar does not depend on them
     if e.is_id():
-        return "Id%d" % e.size
+        return "Id"
     if e.is_int():
-        return "Int%d" % e.size
+        return "Int"
     if e.is_loc():
-        return "Loc%d" % e.size
+        return "Loc"
     if depth >= 3:
-        return "%s%d" % (type(e).__name__[4:], e.size)
+        return type(e).__name__[4:]
     if e.is_mem():
-        return "Mem%d[%s]" % (e.size, _shape(e.ptr, depth + 1))
+        return "Mem[%s]" % _shape(e.ptr, depth + 1)
     if e.is_op():
         return "%s(%s)" % (e.op, ",".join(_shape(a, depth + 1) for a in e.args))
     if e.is_slice():
@@ -637,12 +638,12 @@ def _shape(e, depth=0):
     if e.is_compose():
         return "{%s}" % ",".join(_shape(a, depth + 1) for a in e.args)
     if e.is_cond():
-        return "Cond%d" % e.size
+        return "Cond"
     return type(e).__name__
 
 
 def operand_shape(instr):
-    """operand structure without register names or values: 'Id32/Mem32[+(Id32,Int32)]'"""
+    """operand structure without register names, values or sizes: 'Id/Mem[+(Id,Int)]'"""
     return "/".join(_shape(a) for a in instr.args) or "-"
 
 
